@@ -175,6 +175,9 @@ package mat
 //@ end
 //@ func (*SquareMatrix).Determinant
 //@   property C20
+// (the working copy a := m.Clone() comes from the generic wrapper constructor, which the generator cannot resolve: that
+//  it is a well-formed n x n matrix - the precondition of findPivotRow - is trusted at that call and listed)
+//@   opt trustpre=findPivotRow,SwapRowAssign
 //@   bind S ring, FiniteRing ringS
 //@   uses ringneg
 //@   ghostvar nsw int
@@ -184,6 +187,11 @@ package mat
 //@   loop range(n)
 //@     invariant nsw >= 0 && sign == ite(nsw % 2 == 0, m.Algebra().ScalarRing().One(), m.Algebra().ScalarRing().One().Neg()) && det == pv[$i] && pv[0] == m.Algebra().ScalarRing().One()
 //@     invariant forall t int :: 0 <= t && t < $i ==> exists q V :: pv[t+1] == pv[t].Mul(q)
+// the row chosen in step k is at or below k and its entry in column k is non-zero: a zero is never used as a pivot
+// (that it is the FIRST such row, and that -1 means the whole remaining column is zero, is findPivotRow's contract)
+//@   assert before "if pivot != k {": pivot >= k && pivot < a.m && a.v[pivot*a.n + k] != rzero()
+// ... and after the exchange the pivot that is multiplied into the determinant is that non-zero entry
+//@   assert before "det = det.Mul(pivotVal)": pivotVal != rzero()
 //@   ghostset before "sign := m.Algebra().ScalarRing().One()": nsw = 0
 //@   ghostset after "det := m.Algebra().ScalarRing().One()": pv[0] = det
 //@   ghostset after "a.SwapRowAssign(k, pivot)": nsw = nsw + 1
@@ -272,3 +280,35 @@ package mat
 //@     invariant forall c int :: 0 <= c && c < j ==> elements[i*actor.n + c] == ract(x.v, actor.v, x.n, actor.n, i, c, x.n)
 //@   loop range(x.cols())
 //@     invariant sum == ract(x.v, actor.v, x.n, actor.n, i, j, k)
+
+// ---------------------------------------------------------------- pivot search and row exchange (C20)
+// findPivotRow returns the FIRST row at or below startRow whose entry in the given column is non-zero, or -1 when
+// every such row has a zero there (so "singular" is reported only when no pivot exists).
+//@ func (*SquareMatrix).findPivotRow
+//@   property C20
+//@   purefn
+//@   bind S ring
+//@   nopanic
+//@   requires wfSq(m) && 0 <= col && col < m.n && 0 <= startRow
+//@   ensures result == -1 || (startRow <= result && result < m.m)
+//@   ensures result >= 0 ==> m.v[result*m.n + col] != rzero()
+//@   ensures forall t int :: startRow <= t && t < m.m && (result == -1 || t < result) ==> m.v[t*m.n + col] == rzero()
+//@   loop for(r < m.m)
+//@     invariant startRow <= r
+//@     invariant forall t int :: startRow <= t && t < r ==> m.v[t*m.n + col] == rzero()
+
+// SwapRowAssign exchanges rows i and j in place, entry by entry over ALL columns, and leaves every other row (and the
+// shape) as it was; i == j is a no-op.
+//@ func (*MatrixGroupElementTrait).SwapRowAssign
+//@   property C20
+//@   nopanic
+//@   requires m.m > 0 && m.n > 0 && len(m.v) == m.m * m.n && 0 <= i && i < m.m && 0 <= j && j < m.m
+//@   modifies m.v
+//@   ensures len(m.v) == old(len(m.v))
+//@   ensures forall c int :: 0 <= c && c < m.n ==> m.v[i*m.n + c] == old(m.v)[j*m.n + c] && m.v[j*m.n + c] == old(m.v)[i*m.n + c]
+//@   ensures forall r, c int :: 0 <= r && r < m.m && r != i && r != j && 0 <= c && c < m.n ==> m.v[r*m.n + c] == old(m.v)[r*m.n + c]
+//@   loop range(m.n)
+//@     invariant len(m.v) == old(len(m.v))
+//@     invariant forall c int :: 0 <= c && c < col ==> m.v[i*m.n + c] == old(m.v)[j*m.n + c] && m.v[j*m.n + c] == old(m.v)[i*m.n + c]
+//@     invariant forall c int :: col <= c && c < m.n ==> m.v[i*m.n + c] == old(m.v)[i*m.n + c] && m.v[j*m.n + c] == old(m.v)[j*m.n + c]
+//@     invariant forall r, c int :: 0 <= r && r < m.m && r != i && r != j && 0 <= c && c < m.n ==> m.v[r*m.n + c] == old(m.v)[r*m.n + c]
